@@ -316,13 +316,19 @@ func codecUnits(e *env) (long, short []unit) {
 			r.Add("SKIPPED_"+t.Family+"_tool_absent:"+t.Tool[0], 1)
 			continue
 		}
+		heavy := false // xz -9e: 64 MiB dictionary, ~700 MB of encoder memory per run
+		for _, a := range t.Tool {
+			if a == "-9e" {
+				heavy = true
+			}
+		}
 		for pi := range p2 {
-			if n := len(p2[pi].Data); !r.Thorough() && !quickToolSize[n] {
-				continue // quick: a subset of the structured sizes goes through the external tools
+			if n := len(p2[pi].Data); (!r.Thorough() || heavy) && (!quickToolSize[n] || (heavy && pi%2 == 1)) {
+				continue // quick (and the -9e presets in thorough): a subset of the structured sizes goes through the external tools
 			}
 			long = append(long, unit{t, &p2[pi], false})
 		}
-		for pi := 0; pi < toolP1; pi++ {
+		for pi := 0; pi < toolP1 && !heavy; pi++ {
 			long = append(long, unit{t, &p1[pi], false})
 		}
 	}
